@@ -1,4 +1,5 @@
 import Flowjaxv.Proofs.Params
+import Flowjaxv.Proofs.Wrappers
 /-!
 # C11 — constrained parameters stay valid for every unconstrained value
 
@@ -8,6 +9,8 @@ EVERY real raw value (no box is needed in exact arithmetic) and every vector len
 * definitions generated from /repo: `Gen.realToIncreasingOnInterval`, `Gen.rqsDerivatives`,
   `Gen.rqsDerivativeInit`, `Gen.UnconditionalPlanar.get_act_scale`, `Gen.WeightNormRow.unwrap`,
   `Gen.mixtureLogNormalizedWeights`, `Gen.mixtureRawInit`, the SoftPlus / Loc kernels and `Chain`;
+* the `.unwrap()` bodies generated from `flowjax/wrappers.py` (`Gen/Wrappers.lean`, namespace `Gen.Wr`): matrix- and batch-level
+  `WeightNormalization.unwrap`, `Where.unwrap`, `BijectionReparam.__init__` / `unwrap` (section "generated wrapper bodies");
 * the hand-written glue of `Model/Params.lean` (`BijectionReparam`, the constructors' composition,
   `_to_triangular`, the `error_if` predicates), tied to the code by `tools/props/c11.py`.
 -/
@@ -217,6 +220,76 @@ theorem weightnorm_row_norm (w : List ℝ) (raw : ℝ) (hw : Jnp.dot w w ≠ 0) 
     Real.sqrt (Jnp.dot row.unwrap row.unwrap) = (softplusRaw raw).unwrap ∧ 0 < (softplusRaw raw).unwrap :=
   ⟨ParamsPf.weightnorm_norm _ hw (ParamsPf.softplusRaw_pos raw), ParamsPf.softplusRaw_pos raw⟩
 
+/-! ### Generated wrapper bodies (`Gen/Wrappers.lean`) -/
+
+/-- `WeightNormalization.unwrap` translated for a whole matrix (`jnp.linalg.norm(weight, axis=-1, keepdims=True)`,
+`scale * weight / norms` with NumPy broadcasting) equals the per-row generated kernel of `Gen/Params.lean` applied row by row —
+every number of rows and columns.  The norm is therefore taken over the LAST axis: with any other axis this equation is false. -/
+theorem gen_weightnorm_eq_rows (W : Wr.WeightNormalization ℝ) :
+    W.unwrap = List.zipWith (fun row s => (⟨row, s⟩ : WeightNormRow ℝ).unwrap) W.weight W.scale :=
+  WrappersPf.wn_eq_rows W.weight W.scale
+
+/-- every row of the unwrapped matrix has the shape of the weight's row and Euclidean norm `|scale_row|` — every shape
+(rows × cols), every weight matrix without a zero row, every scale column (either sign); with the constructor's
+SoftPlus-reparameterised scale that is `softplus raw > 0` (`weightnorm_row_norm`). -/
+theorem gen_weightnorm_row_norm (W : Wr.WeightNormalization ℝ) (hlen : W.scale.length = W.weight.length)
+    (hw : ∀ row ∈ W.weight, Jnp.dot row row ≠ 0) :
+    W.unwrap.length = W.weight.length ∧
+    ∀ i (hi : i < W.unwrap.length) (hwi : i < W.weight.length) (hs : i < W.scale.length),
+      (W.unwrap[i]).length = (W.weight[i]).length ∧
+      Real.sqrt (Jnp.dot W.unwrap[i] W.unwrap[i]) = |W.scale[i]| := by
+  have e := gen_weightnorm_eq_rows W
+  refine ⟨by rw [e]; simp [hlen], fun i hi hwi hs => ?_⟩
+  have hi' : i < (List.zipWith (fun row s => (⟨row, s⟩ : WeightNormRow ℝ).unwrap) W.weight W.scale).length := by
+    simp; omega
+  have e' : W.unwrap[i] = (⟨W.weight[i], W.scale[i]⟩ : WeightNormRow ℝ).unwrap := by
+    simp only [e, List.getElem_zipWith]
+  rw [e']
+  exact ⟨WrappersPf.row_unwrap_length _, WrappersPf.weightnorm_norm_abs _ (hw _ (List.getElem_mem hwi))⟩
+
+/-- a batch of weight matrices (rank 3; the SAME source line typed at rank 3): slice `b` of the unwrapped batch is the unwrapped
+slice `b` — the norm is still over the last axis, per matrix — every batch size and shape -/
+theorem gen_weightnorm_batch_slices (B : Wr.WeightNormBatch ℝ) :
+    B.unwrap = List.zipWith (fun m s => (⟨m, s⟩ : Wr.WeightNormalization ℝ).unwrap) B.weight B.scale :=
+  WrappersPf.wn_batch_eq_slices B.weight B.scale
+
+/-- hence, slice by slice, every row of every matrix of the unwrapped batch has norm `|scale|` of its row -/
+theorem gen_weightnorm_batch_row_norm (B : Wr.WeightNormBatch ℝ) (b : Nat) (hb : b < B.unwrap.length)
+    (hbw : b < B.weight.length) (hbs : b < B.scale.length) (hlen : (B.scale[b]).length = (B.weight[b]).length)
+    (hw : ∀ row ∈ B.weight[b], Jnp.dot row row ≠ 0) :
+    ∀ i (hi : i < (B.unwrap[b]).length) (_ : i < (B.weight[b]).length) (hs : i < (B.scale[b]).length),
+      Real.sqrt (Jnp.dot (B.unwrap[b])[i] (B.unwrap[b])[i]) = |(B.scale[b])[i]| := by
+  have e : B.unwrap[b] = (⟨B.weight[b], B.scale[b]⟩ : Wr.WeightNormalization ℝ).unwrap := by
+    simp only [gen_weightnorm_batch_slices B, List.getElem_zipWith]
+  intro i hi hwi hs
+  have h := (gen_weightnorm_row_norm ⟨B.weight[b], B.scale[b]⟩ hlen hw).2 i (by rw [← e]; exact hi) hwi hs
+  simp only [e]
+  exact h.2
+
+/-- `Where.unwrap` for one element selects `if_true` where `cond` holds and `if_false` elsewhere; with a Boolean-matrix
+condition and `if_false = 0` (how `masked_autoregressive_mlp` and the block-autoregressive layers use it) the generated body is the
+masking function `Masks.whereMask` of the C09 model, for every pair of shapes -/
+theorem gen_where_select (c : Bool) (a b : ℝ) (mask : List (List Bool)) (w : List (List ℝ)) :
+    (⟨c, a, b⟩ : Wr.Where ℝ).unwrap = (if c then a else b) ∧
+    (⟨mask, w, 0⟩ : Wr.WhereMat ℝ).unwrap = Masks.whereMask mask w :=
+  ⟨WrappersPf.where_select c a b, WrappersPf.whereMat_eq_whereMask mask w⟩
+
+/-- `BijectionReparam(v, bijection)` (the generated constructor stores `bijection.inverse(v)`) then `unwrap` (the generated body
+applies `bijection.transform`) reproduces `v`, and the stored raw value lies in the bijection's domain — for every lawful
+bijection `D ↔ E` on any point type and every `v ∈ E`. -/
+theorem gen_reparam_roundtrip {X L : Type} (b : Bij X Unit L) {D E : Set X} (hb : b.Lawful D E) {v : X} (hv : v ∈ E) :
+    (Wr.BijectionReparam.init v b).unwrap = v ∧ (Wr.BijectionReparam.init v b).arr ∈ D ∧
+      (Wr.BijectionReparam.init v b).bijection = b :=
+  ⟨hb.right v hv (), hb.mapsInv v hv (), rfl⟩
+
+/-- the generated constructor / `unwrap` are the hand model's (`Params.BijectionReparam`), so every `softplus_…` statement above is
+about the generated bodies: positivity for every raw value, reproduction of every positive argument -/
+theorem gen_reparam_softplus (raw : ℝ) {s : ℝ} (hs : 0 < s) (b : Bij ℝ Unit ℝ) (v : ℝ) :
+    (Wr.BijectionReparam.init v b).unwrap = (Params.BijectionReparam.init b v).unwrap ∧
+    0 < (⟨raw, SoftPlus.toBij⟩ : Wr.BijectionReparam ℝ ℝ).unwrap ∧
+    (Wr.BijectionReparam.init s SoftPlus.toBij).unwrap = s :=
+  ⟨rfl, ParamsPf.softplusRaw_pos raw, (gen_reparam_roundtrip _ Leaves.softplus_lawful (Set.mem_Ioi.mpr hs)).1⟩
+
 /-! ### Rejection of invalid constructor arguments -/
 
 /-- scale (Affine/Scale/Normal/…, TriangularAffine diagonal): the reparameterisation's validity
@@ -273,6 +346,14 @@ theorem mvn_instance : triangularInit true [[(2 : ℝ), 0], [1, 3]] = some [[2, 
     · simp at h1; subst h1; simp at h2; subst h2; norm_num
     · simp at h1; subst h1; simp at h2; subst h2; norm_num
     · simp at h1
+
+/-- the generated matrix-level weight normalisation on a 2 × 2 weight with a negative scale entry: rows of norm 2 and 3 -/
+theorem gen_weightnorm_instance :
+    (⟨[[3, 4], [0, -2]], [2, -3]⟩ : Wr.WeightNormalization ℝ).unwrap = [[6 / 5, 8 / 5], [0, 3]] := by
+  have h5 : Real.sqrt (3 * 3 + 4 * 4) = 5 := by
+    rw [show (3 : ℝ) * 3 + 4 * 4 = 5 * 5 by norm_num]; exact Real.sqrt_mul_self (by norm_num)
+  simp [Wr.WeightNormalization.unwrap, ParamsPf.jdot_eq, h5]
+  norm_num
 
 theorem permutation_instance :
     permuteRejects [2, 0, 1] = false ∧ permuteRejects [0, 1, 1] = true ∧ permuteRejects [0, 1, 3] = true := by
